@@ -137,6 +137,7 @@ func (ob *attemptObs) reached() bool { ob.mu.Lock(); defer ob.mu.Unlock(); retur
 func (ob *attemptObs) reader() string { ob.mu.Lock(); defer ob.mu.Unlock(); return ob.Reader }
 
 type attemptOpts struct {
+	InlineError  bool // the first Error() call is made by the Stream goroutine itself, immediately
 	ErrorCalls   int  // how many Error() calls after Stream returned
 	Leftovers    bool // wait for library goroutines to vanish
 	ErrorFirst   bool // call Error() before the leftover wait (else after)
@@ -172,6 +173,7 @@ func runAttempt(c *core.Ctx, s *run.Session, l *hist.Layout, start hist.Pos, spe
 	ob.PlanLen = len(plan)
 	scr := &sim.Script{End: sim.EndEOF, LockStep: spec.Lock, Faults: map[int]sim.Fault{}}
 	hs := run.NoFaults()
+	hs.InlineError = o.InlineError
 	hs.SlowUS = spec.Slow
 	if spec.Slow > 0 {
 		ob.Handler = "slow"
@@ -310,7 +312,9 @@ func runAttempt(c *core.Ctx, s *run.Session, l *hist.Layout, start hist.Pos, spe
 		return ob
 	}
 	errCalls := func() {
-		if o.ErrorCalls >= 1 {
+		if o.InlineError && ob.Res.InlineErrDone {
+			ob.Err1 = &run.ErrorResult{Err: ob.Res.InlineErr, Verdict: run.Returned}
+		} else if o.ErrorCalls >= 1 {
 			ob.Err1 = s.CallError(maxWait)
 		}
 		if o.ErrorCalls >= 2 && ob.Err1.Verdict == run.Returned {
